@@ -123,6 +123,17 @@ def eval_check(recipe, obj, lts, ctxs, envs, part, U):
             part.count("model_undefined_env")
             continue
         comps = list(np.ndindex(obj.ufl_shape)) if obj.ufl_shape else [()]
+        # Expr.__call__ first expands derivatives; a refusal there (e.g. the derivative of abs of a
+        # vector) is a rejection, not a wrong value
+        try:
+            from ufl.algorithms import expand_derivatives
+
+            expand_derivatives(obj)
+        except BaseException as e:  # noqa: BLE001
+            if isinstance(e, (KeyboardInterrupt, SystemExit, MemoryError)):
+                raise
+            part.error("expand_derivatives:" + type(e).__name__)
+            return None
         for comp in comps:
             part.inc("transitions")
             try:
@@ -138,6 +149,17 @@ def eval_check(recipe, obj, lts, ctxs, envs, part, U):
                     # a derivative of the coefficient mapped to a one-argument callable f(x) was requested:
                     # the mapping cannot supply it (user error, not an evaluator defect)
                     part.count("mapping_without_derivatives")
+                    break
+                if isinstance(e, TypeError) and "must be real number" in str(e):
+                    # python's math module has no complex version of this function (erf)
+                    part.count("no_complex_version")
+                    break
+                if isinstance(e, (ValueError, ZeroDivisionError, OverflowError)) and (
+                    "math domain error" in str(e) or "division by zero" in str(e) or "math range error" in str(e) or isinstance(e, OverflowError)
+                ):
+                    # real-number evaluation outside the function's real domain (the model continues
+                    # on the complex principal branch): not a wrong value
+                    part.count("real_domain_error")
                     break
                 # UFL's evaluator refuses this expression although the model gives it a value
                 part.violation(
